@@ -191,6 +191,7 @@ def run_problem(rec, prob, kwargs=None, key_prefix="", timeout_ms=60000, max_pat
             _discharge(rec, it, assumptions, mk, kwargs, key_prefix, timeout_ms, robust, per_entry_fallback)
             if sig is not None and all(o.get("syntactic") and o["verdict"] == "unsat" for o in rec.obligations[n0:]):
                 seen.add(sig)
+                rec.__dict__.setdefault("_seen_keepalive", []).append((it.code, it.ref))  # ids stay unique while referenced
     return n_items
 
 
@@ -200,7 +201,10 @@ def _signature(it):
         return None
     try:
         ca, ra = np.asarray(it.code, dtype=object), np.asarray(it.ref, dtype=object)
-        return (it.label, tuple(SV.lift(_plain(x)).e.get_id() for x in ca.ravel()), tuple(SV.lift(_plain(y)).e.get_id() for y in ra.ravel()))
+        def ident(x):
+            x = _plain(x)
+            return ("ast", x.e.get_id()) if isinstance(x, SV) else ("num", repr(x))
+        return (it.label, tuple(ident(x) for x in ca.ravel()), tuple(ident(y) for y in ra.ravel()))
     except Exception:  # noqa: BLE001
         return None
 
